@@ -580,6 +580,54 @@ func runC17(r *Run) {
 	checkDialTable(r, dl, dial, uc, schemeF, hostF, protoF)
 	dl.Done()
 
+	// ---- DTLS gets a packet connection it can write to
+	dp := r.Rule("C17.dtlsconn", "the net.PacketConn handed to dtls.Client is not a connected UDP socket (the result of DialUDP) as such: pion/dtls sends with WriteTo, which a connected socket refuses, so the handshake could never leave it (EXT); a connected socket is wrapped with dtls/pkg/net.PacketConnFromConn", 1)
+	if dial != nil {
+		n := 0
+		eachInstr(dial, func(b *ssa.BasicBlock, i int, in ssa.Instruction) {
+			c, ok := in.(*ssa.Call)
+			if !ok || !isPkgFuncCall(c, "github.com/pion/dtls/v3", "Client") || len(c.Call.Args) < 1 {
+				return
+			}
+			n++
+			v := c.Call.Args[0]
+			for k := 0; k < 6; k++ {
+				switch x := v.(type) {
+				case *ssa.MakeInterface:
+					v = x.X
+					continue
+				case *ssa.ChangeInterface:
+					v = x.X
+					continue
+				case *ssa.ChangeType:
+					v = x.X
+					continue
+				case *ssa.Phi:
+					v = canonPhi(x)
+					if v == ssa.Value(x) {
+						k = 6
+					}
+					continue
+				case *ssa.Extract:
+					v = x.Tuple
+					continue
+				}
+				break
+			}
+			desc := exprDepth(v, 0)
+			if call, isC := v.(*ssa.Call); isC {
+				if call.Call.IsInvoke() && strings.HasPrefix(call.Call.Method.Name(), "Dial") {
+					dp.Violation(dial, instrPos(c), "dtls.Client("+desc+", ...)", "a connected UDP socket is given to DTLS as net.PacketConn: every record is sent with WriteTo, which Go refuses on a connected socket (ErrWriteToConnected) - DialURI returns a client whose handshake can never leave the socket, every request fails")
+				}
+			}
+			dp.Instance("dtls.Client|packet connection", true, map[string]string{"conn": desc})
+		})
+		if n == 0 {
+			dp.Fail("dtls.Client call", "not found in DialURI")
+		}
+	}
+	dp.Done()
+
 	// ---- every network operation of DialURI goes through the configured Net
 	nt := r.Rule("C17.net", "DialURI and the library functions it calls never dial, resolve, look up or listen through the package-level functions of package net: the peer that is reached is the one the configured Net yields for the URI's host and transport", 1)
 	if dial != nil {
